@@ -650,3 +650,29 @@ def nested_graph_variant(spec, k):
     sp['goals'] = sorted({(g + 1 + k) % n for g in sp['goals']} or {k % n})
     sp.pop('giant', None)
     return sp
+
+
+def nested_pomdp_variant(spec, k):
+    """The POMDP a nested / overlapping run (fault F10) works on: same state, action and observation keys, positive
+    transition and observation probabilities rotated within their supports, rewards r/2 - 1/4, another discount."""
+    import copy
+    sp = copy.deepcopy(spec)
+    for tr in sp['trans']:
+        pos = [o for o in tr[2] if o[1] > 0]
+        if len(pos) > 1:
+            ps = [o[1] for o in pos]
+            ps = ps[1:] + ps[:1]
+            for o, p in zip(pos, ps):
+                o[1] = p
+        for o in tr[2]:
+            o[2] = o[2] * 0.5 - 0.25
+    for ob in sp['obs']:
+        pos = [o for o in ob[2] if o[1] > 0]
+        if len(pos) > 1:
+            ps = [o[1] for o in pos]
+            ps = ps[1:] + ps[:1]
+            for o, p in zip(pos, ps):
+                o[1] = p
+    others = [g for g in (0.5, 0.8, 0.9, 0.95) if g != sp['gamma']]
+    sp['gamma'] = others[k % len(others)]
+    return sp
